@@ -2,7 +2,7 @@
    Property theorems only; each is closed by a lemma of proofs/TagsP.v, FieldsP.v, C08RefP.v.
    quote/unquote stand for strconv.Quote/Unquote; QuoteSpec and OracleFacts (model/Tags.v) are the
    hypotheses about them, evaluated by the correspondence check on every recorded answer of the real functions. *)
-From LR Require Import lib.Base model.KV model.Tags model.Fields proofs.KVP proofs.TagsP proofs.FieldsP proofs.C08RefP proofs.QuoteInstP.
+From LR Require Import lib.Base model.KV model.Tags model.Fields proofs.KVP proofs.TagsP proofs.FieldsP proofs.C08RefP proofs.QuoteInstP proofs.ParsedP.
 From Coq Require Import Permutation.
 
 (* ---- the full statements (false of the faithful model, see the _refuted theorems) ---- *)
@@ -22,6 +22,15 @@ Theorem C08_tags_partial : forall quote unquote, QuoteSpec quote unquote ->
   forall m, keys_sorted m = true -> tag_safe m = true -> to_map unquote (line quote m) = Ok m.
 Proof. intros quote unquote QS m. exact (tags_roundtrip quote unquote QS m). Qed.
 Print Assumptions C08_tags_partial.
+
+(* for ACCEPTED tag sets the names need no hypothesis (every name tag.Parse yields is scanner-safe): the law holds
+   whenever every value is safe to print and the two ends of the line are harmless *)
+Theorem C08_tags_accepted_partial : forall quote unquote, QuoteSpec quote unquote ->
+  forall s m, to_map unquote s = Ok m ->
+    forallb (fun kv => tag_value_safe (snd kv)) m = true -> tag_edges_ok m = true ->
+    to_map unquote (line quote m) = Ok m.
+Proof. exact tags_roundtrip_parsed. Qed.
+Print Assumptions C08_tags_accepted_partial.
 
 (* refutations, one per input class; each exhibits an ACCEPTED text *)
 Theorem C08_tags_unbalanced_dquote_refuted : forall quote unquote, QuoteSpec quote unquote ->
